@@ -1400,7 +1400,10 @@ impl LpgStore {
         // Get or create label ID
         let label_id = self.get_or_create_label_id(label);
 
-        // Add to node_labels map
+        // Update the node's label set and the label index in one critical section
+        // (label_index is locked before node_labels, as in delete_node): a concurrent
+        // add/remove of the same label must not interleave between the two structures.
+        let mut index = self.label_index.write();
         let mut node_labels = self.node_labels.write();
         let label_set = node_labels.entry(node_id).or_default();
 
@@ -1409,14 +1412,13 @@ impl LpgStore {
         }
 
         label_set.insert(label_id);
-        drop(node_labels);
 
         // Add to label_index
-        let mut index = self.label_index.write();
         if (label_id as usize) >= index.len() {
             index.resize(label_id as usize + 1, FxHashMap::default());
         }
         index[label_id as usize].insert(node_id, ());
+        drop(node_labels);
         // Release the label index before locking `nodes` (lock order: nodes first)
         drop(index);
 
@@ -1459,7 +1461,10 @@ impl LpgStore {
         // Get or create label ID
         let label_id = self.get_or_create_label_id(label);
 
-        // Add to node_labels map
+        // Update the node's label set and the label index in one critical section
+        // (label_index is locked before node_labels, as in delete_node): a concurrent
+        // add/remove of the same label must not interleave between the two structures.
+        let mut index = self.label_index.write();
         let mut node_labels = self.node_labels.write();
         let label_set = node_labels.entry(node_id).or_default();
 
@@ -1468,14 +1473,13 @@ impl LpgStore {
         }
 
         label_set.insert(label_id);
-        drop(node_labels);
 
         // Add to label_index
-        let mut index = self.label_index.write();
         if (label_id as usize) >= index.len() {
             index.resize(label_id as usize + 1, FxHashMap::default());
         }
         index[label_id as usize].insert(node_id, ());
+        drop(node_labels);
 
         // Note: label_count in record is not updated for tiered storage.
         // The record is immutable once allocated in the arena.
@@ -1511,7 +1515,9 @@ impl LpgStore {
             }
         };
 
-        // Remove from node_labels map
+        // Update the node's label set and the label index in one critical section
+        // (label_index is locked before node_labels, as in delete_node)
+        let mut index = self.label_index.write();
         let mut node_labels = self.node_labels.write();
         if let Some(label_set) = node_labels.get_mut(&node_id) {
             if !label_set.remove(&label_id) {
@@ -1520,13 +1526,12 @@ impl LpgStore {
         } else {
             return false;
         }
-        drop(node_labels);
 
         // Remove from label_index
-        let mut index = self.label_index.write();
         if (label_id as usize) < index.len() {
             index[label_id as usize].remove(&node_id);
         }
+        drop(node_labels);
         // Release the label index before locking `nodes` (lock order: nodes first)
         drop(index);
 
@@ -1575,7 +1580,9 @@ impl LpgStore {
             }
         };
 
-        // Remove from node_labels map
+        // Update the node's label set and the label index in one critical section
+        // (label_index is locked before node_labels, as in delete_node)
+        let mut index = self.label_index.write();
         let mut node_labels = self.node_labels.write();
         if let Some(label_set) = node_labels.get_mut(&node_id) {
             if !label_set.remove(&label_id) {
@@ -1584,13 +1591,12 @@ impl LpgStore {
         } else {
             return false;
         }
-        drop(node_labels);
 
         // Remove from label_index
-        let mut index = self.label_index.write();
         if (label_id as usize) < index.len() {
             index[label_id as usize].remove(&node_id);
         }
+        drop(node_labels);
 
         // Note: label_count in record is not updated for tiered storage.
 
